@@ -123,6 +123,46 @@ namespace d
       {};
    };
 
+   // the same guard reached through a switch of the action family that is attached to the guarded rule itself: the parse starts
+   // with a family whose specialisation for the recursive rule is change_action_and_state< lim< N >::act, S > (resp.
+   // change_action< lim< N >::act >); the guard of the switched-in family applies to that very rule, i.e. also to the outermost level
+   struct dstate
+   {
+      template< typename In, typename... St >
+      explicit dstate( const In& /*unused*/, St&&... /*unused*/ )
+      {}
+      template< typename In, typename... St >
+      void success( const In& /*unused*/, St&&... /*unused*/ )
+      {}
+   };
+   struct dstate_dc  // only default-constructible
+   {
+      template< typename In, typename... St >
+      void success( const In& /*unused*/, St&&... /*unused*/ )
+      {}
+   };
+   template< std::size_t N >
+   struct lim_cas
+   {
+      template< typename Rule >
+      struct act : std::conditional_t< is_rec< Rule >::value, change_action_and_state< lim< N >::template act, dstate >, nothing< Rule > >
+      {};
+   };
+   template< std::size_t N >
+   struct lim_cas_dc
+   {
+      template< typename Rule >
+      struct act : std::conditional_t< is_rec< Rule >::value, change_action_and_state< lim< N >::template act, dstate_dc >, nothing< Rule > >
+      {};
+   };
+   template< std::size_t N >
+   struct lim_ca
+   {
+      template< typename Rule >
+      struct act : std::conditional_t< is_rec< Rule >::value, change_action< lim< N >::template act >, nothing< Rule > >
+      {};
+   };
+
    // measuring control: nesting of rec rules in the unguarded run
    struct meter
    {
@@ -208,33 +248,41 @@ static void check_depth( const char* shape, const std::string& s, bool catching_
    d::the_meter() = d::meter();
    const res u = run_depth< G, p::nothing, d::meter_control >( s );
    const std::size_t need = d::the_meter().max;
-   const res g = run_depth< G, d::lim< N >::template act, p::normal >( s );
    const std::string kase = vf::jobj().str( "part", "depth" ).str( "shape", shape ).num( "limit", (long long)N ).str( "input", s ).done();
-   const std::string head = std::string( "limit_depth<" ) + std::to_string( N ) + "> on shape " + shape + " input '" + vf::show( s ) + "' (nesting needed " + std::to_string( need ) + "): ";
    if( need > N ) {
       R.nontrivial( vf::mix( vf::mix( vf::fnv( shape ), vf::fnv( s ) ), N ) );
    }
-   if( g.depth_after != 0 ) {
-      failcase( std::string( "depth:counter-not-restored:" ) + ( g.k == 2 ? "after-exception" : g.k == 1 ? "after-success" : "after-failure" ), kase, head + "current_depth() is " + std::to_string( g.depth_after ) + " after the run" );
-      return;
-   }
-   if( need <= N ) {
-      if( g.k != u.k || g.consumed != u.consumed || ( g.k == 2 && g.msg != u.msg ) ) {
-         failcase( "depth:within-limit-differs", kase, head + "guarded result " + std::to_string( g.k ) + "/" + std::to_string( g.consumed ) + " " + g.msg + ", unguarded " + std::to_string( u.k ) + "/" + std::to_string( u.consumed ) + " " + u.msg );
+   const auto judge = [ & ]( const res& g, const char* variant ) {
+      const std::string head = std::string( "limit_depth<" ) + std::to_string( N ) + ">" + variant + " on shape " + shape + " input '" + vf::show( s ) + "' (nesting needed " + std::to_string( need ) + "): ";
+      if( g.depth_after != 0 ) {
+         failcase( std::string( "depth:counter-not-restored:" ) + ( g.k == 2 ? "after-exception" : g.k == 1 ? "after-success" : "after-failure" ), kase, head + "current_depth() is " + std::to_string( g.depth_after ) + " after the run" );
+         return;
       }
-      return;
-   }
-   if( catching_shape ) {
-      // shape 5: the first guarded block is allowed to fail by the limit error (caught); the overall run must still be
-      // consistent: either a parse_error (limit exceeded in the second, uncaught block) or a normal result
-      if( g.k == 3 ) {
-         failcase( "depth:foreign-exception", kase, head + "foreign exception" );
+      if( need <= N ) {
+         if( g.k != u.k || g.consumed != u.consumed || ( g.k == 2 && g.msg != u.msg ) ) {
+            failcase( "depth:within-limit-differs", kase, head + "guarded result " + std::to_string( g.k ) + "/" + std::to_string( g.consumed ) + " " + g.msg + ", unguarded " + std::to_string( u.k ) + "/" + std::to_string( u.consumed ) + " " + u.msg );
+         }
+         return;
       }
-      return;
-   }
-   if( !( g.k == 2 && g.msg == "maximum parser rule nesting depth exceeded" ) ) {
-      failcase( "depth:beyond-limit-not-reported", kase, head + "expected parse_error 'maximum parser rule nesting depth exceeded', got result " + std::to_string( g.k ) + " " + g.msg );
-   }
+      if( catching_shape ) {
+         // shape 5: the first guarded block is allowed to fail by the limit error (caught); the overall run must still be
+         // consistent: either a parse_error (limit exceeded in the second, uncaught block) or a normal result
+         if( g.k == 3 ) {
+            failcase( "depth:foreign-exception", kase, head + "foreign exception" );
+         }
+         return;
+      }
+      if( !( g.k == 2 && g.msg == "maximum parser rule nesting depth exceeded" ) ) {
+         failcase( "depth:beyond-limit-not-reported", kase, head + "expected parse_error 'maximum parser rule nesting depth exceeded', got result " + std::to_string( g.k ) + " " + g.msg );
+      }
+   };
+   judge( run_depth< G, d::lim< N >::template act, p::normal >( s ), "" );
+   R.eval();
+   judge( run_depth< G, d::lim_cas< N >::template act, p::normal >( s ), " (switched in by change_action_and_state on the guarded rule)" );
+   R.eval();
+   judge( run_depth< G, d::lim_cas_dc< N >::template act, p::normal >( s ), " (switched in by change_action_and_state with a default-constructed state)" );
+   R.eval();
+   judge( run_depth< G, d::lim_ca< N >::template act, p::normal >( s ), " (switched in by change_action on the guarded rule)" );
 }
 
 static std::string brackets( int depth, int extra_open = 0 )
@@ -423,7 +471,7 @@ struct bres
    bool end_restored = true;
 };
 
-template< typename G, template< typename... > class Act >
+template< typename G, template< typename... > class Act, template< typename... > class Ctl = p::normal >
 static bres run_bytes( const std::string& s )
 {
    bres r;
@@ -437,7 +485,7 @@ static bres run_bytes( const std::string& s )
    {
       p::memory_input< p::tracking_mode::eager, p::eol::lf_crlf, const char* > in( buf, buf + s.size(), "bytes" );
       try {
-         r.k = p::parse< G, Act >( in ) ? 1 : 0;
+         r.k = p::parse< G, Act, Ctl >( in ) ? 1 : 0;
       }
       catch( const p::parse_error& e ) {
          r.k = 2;
@@ -460,7 +508,15 @@ static bres run_bytes( const std::string& s )
    return r;
 }
 
-template< typename K, std::size_t N >
+// a control that switches its hooks off for the guarded rule (the documented way to hide a rule from a control): the
+// byte limit is attached through the action and must hold all the same
+template< typename Rule >
+struct hiding_control : p::normal< Rule >
+{
+   static constexpr bool enable = !b::is_guarded< Rule >::value && p::normal< Rule >::enable;
+};
+
+template< typename K, std::size_t N, template< typename... > class Ctl = p::normal >
 static void check_bytes_case( const char* kind, const std::string& s )
 {
    const std::size_t start = s.find_first_not_of( '#' ) == std::string::npos ? s.size() : s.find_first_not_of( '#' );
@@ -470,7 +526,7 @@ static void check_bytes_case( const char* kind, const std::string& s )
    const std::size_t cut = std::min( s.size(), start + N );
    const bres t = run_bytes< b::only< K >, b::plain::act >( s.substr( 0, cut ) );
    R.eval();
-   const bres g = run_bytes< b::only< K >, b::lim< N >::template act >( s );
+   const bres g = run_bytes< b::only< K >, b::lim< N >::template act, Ctl >( s );
    if( start > 0 && s.size() > start + N ) {
       R.nontrivial( vf::mix( vf::mix( vf::fnv( kind ), vf::fnv( s ) ), N ) );
    }
@@ -589,6 +645,7 @@ static void bytes_all_kinds( const std::string& s )
 {
 #define KIND( K, NAME )                        \
    check_bytes_case< b::K, N >( NAME, s );     \
+   check_bytes_case< b::K, N, hiding_control >( NAME " [rule hidden from the control]", s ); \
    check_bytes_lookahead< b::K, N >( NAME, s ); \
    check_whole_and_checkbytes< b::K, N >( NAME, s );
    KIND( k_greedy, "greedy plus<alpha>" )
